@@ -14,7 +14,8 @@ def config(tier):
         'budget_s': 55 if tier == 'quick' else 570,
         'floors': {'cases': 30, 'crash_states': 800, 'reruns_completed': 600,
                    'restore_scenarios': 8, 'empty_scenarios': 8,
-                   'rm_scenarios': 8},
+                   'rm_scenarios': 8, 'crash_states_restore': 300,
+                   'crash_states_rm': 100, 'interrupt_states': 400},
         'rule': 'case = scenario: trash-restore (single/multi index, same or '
                 'cross volume, --overwrite) | trash-empty (with/without DAYS) '
                 '| trash-rm PATTERN over generated trash content (files, deep '
@@ -104,7 +105,7 @@ def run_case(case):
             return out
         reply = {'first': '0', 'last': str(n - 1), 'all': '0-%d' % (n - 1)}[case['sel']]
         stdin = (reply + '\n').encode()
-        cwd = ''
+        cwd = '@'      # the scope of the listing above: the whole sandbox
         out['features'].append('sel:' + case['sel'])
         if case.get('cross'):
             out['features'].append('cross-volume')
@@ -127,6 +128,7 @@ def run_case(case):
         return out
     def judge_state(wk, rk, a0, a1):
         obs['crash_states'] = obs.get('crash_states', 0) + 1
+        obs['crash_states_' + cmd] = obs.get('crash_states_' + cmd, 0) + 1
         ev = rk.crash
         if ev:
             obs['crash_before_' + ev['op']] = obs.get('crash_before_' + ev['op'], 0) + 1
